@@ -109,14 +109,14 @@ where
         // `span` and `step` have the same sign, so the quotient is positive
         let span = b - a;
         let mut steps = (span / step).ceil();
-        // integer division truncates (and `ceil` is the identity on integers), so a
-        // trailing partial step is not counted yet
-        let covered = steps * step;
-        if (step > zero && covered < span) || (step < zero && covered > span) {
+        // the quotient is only a first guess - integer division truncates (and `ceil` is the
+        // identity on integers), a float quotient rounds - so the count is settled on the
+        // elements themselves: one more if the next element still lies strictly before `b`,
+        // one fewer if the last one does not
+        let next = a + steps * step;
+        if (step > zero && next < b) || (step < zero && next > b) {
             steps += T::one();
         }
-        // a float quotient that rounds up past an integer counts one step too many:
-        // the last element must still lie strictly before `b`
         let last = a + (steps - T::one()) * step;
         if (step > zero && last >= b) || (step < zero && last <= b) {
             steps = steps - T::one();
